@@ -141,8 +141,14 @@ func (k *c29Skel) exprRecvs(e ast.Expr) {
 			if x.Op == token.ARROW {
 				k.emit("recv " + c29ExprString(k.fset, x.X))
 			}
-		case *ast.FuncLit:
-			return false
+		case *ast.CallExpr:
+			// the join's `send(channel, msg)` helper (a select over the channel and ctx.Done)
+			if id, ok := x.Fun.(*ast.Ident); ok && id.Name == "send" && len(x.Args) > 0 {
+				k.emit("call send " + c29ExprString(k.fset, x.Args[0]))
+			}
+		case *ast.SendStmt:
+			// a send inside a closure passed as an argument (the join's produce / metaSend callbacks before the fix)
+			k.emit("send " + c29ExprString(k.fset, x.Chan))
 		}
 		return true
 	})
@@ -177,6 +183,19 @@ func (k *c29Skel) stmt(st ast.Stmt) {
 		}
 		k.exprRecvs(s.X)
 	case *ast.AssignStmt:
+		if len(s.Lhs) == 1 && len(s.Rhs) == 1 {
+			if id, ok := s.Lhs[0].(*ast.Ident); ok {
+				if fl, ok := s.Rhs[0].(*ast.FuncLit); ok && id.Name == "send" {
+					k.emit("func send{")
+					k.walk(fl.Body.List)
+					k.emit("}")
+					return
+				}
+				if _, ok := s.Rhs[0].(*ast.FuncLit); ok {
+					return // other local closures (processRecordsUpTo, markOneStreamRemains): no channel operations expected
+				}
+			}
+		}
 		for _, r := range s.Rhs {
 			k.exprRecvs(r)
 		}
@@ -203,6 +222,9 @@ func (k *c29Skel) stmt(st ast.Stmt) {
 		}
 		k.emit("defer " + c29ExprString(k.fset, s.Call.Fun))
 	case *ast.ReturnStmt:
+		for _, r := range s.Results {
+			k.exprRecvs(r)
+		}
 		k.emit("return")
 	case *ast.BranchStmt:
 		l := ""
@@ -218,8 +240,8 @@ func (k *c29Skel) stmt(st ast.Stmt) {
 		k.walk(s.Body.List)
 		k.emit("}")
 	case *ast.RangeStmt:
-		if _, isChan := s.X.(*ast.Ident); isChan && c29ExprString(k.fset, s.X) == "inChan" {
-			k.emit("for-range-chan inChan{")
+		if x := c29ExprString(k.fset, s.X); x == "inChan" || x == "openChannel" {
+			k.emit("for-range-chan " + x + "{")
 		} else {
 			k.emit("for{")
 		}
@@ -228,12 +250,12 @@ func (k *c29Skel) stmt(st ast.Stmt) {
 	case *ast.IfStmt:
 		// reads of the shared variable in conditions
 		cond := c29ExprString(k.fset, s.Cond)
+		k.stmt(s.Init)
 		if strings.Contains(cond, "linesRead") {
 			k.emit("if-reads-linesRead " + cond + "{")
 		} else {
 			k.emit("if{")
 		}
-		k.stmt(s.Init)
 		k.walk(s.Body.List)
 		k.emit("}")
 		if s.Else != nil {
@@ -356,13 +378,37 @@ func extractJSONPipe(repoDir, outDir string) error {
 	}
 	wkSkel := c29Prune(k2.out)
 
-	// join channel capacities
+	// join channel capacities and skeletons
 	joinCap := ""
+	joinSkel := map[string][]string{}
 	for _, fn := range []string{"stream_join.go", "outer_join.go"} {
 		jf, err := parser.ParseFile(fset, filepath.Join(repoDir, "execution", "nodes", fn), nil, 0)
 		if err != nil {
 			return err
 		}
+		recv := "StreamJoin"
+		if fn == "outer_join.go" {
+			recv = "OuterJoin"
+		}
+		jrun := c29FindMethod(jf, recv, "Run")
+		if jrun == nil {
+			return fmt.Errorf("%s.Run not found", recv)
+		}
+		kj := &c29Skel{fset: fset}
+		kj.walk(jrun.Body.List)
+		if kj.err != nil {
+			return fmt.Errorf("%s: %v", fn, kj.err)
+		}
+		// keep only the lines that speak about goroutines and channels (the node's data processing is C19's subject)
+		var flat []string
+		for _, l := range c29Prune(kj.out) {
+			switch l {
+			case "if{", "else{", "}", "return", "continue", "for{":
+				continue
+			}
+			flat = append(flat, l)
+		}
+		joinSkel[fn] = flat
 		for _, name := range []string{"leftMessages", "rightMessages"} {
 			c, err := c29MakeChanCap(fset, jf, name)
 			if err != nil {
@@ -394,6 +440,8 @@ func extractJSONPipe(repoDir, outDir string) error {
 	fmt.Fprintf(&sb, "/-- `leftMessages/rightMessages := make(chan chanMessage, N)` in StreamJoin.Run and OuterJoin.Run -/\ndef joinCap : Nat := %s\n", joinCap)
 	fmt.Fprintf(&sb, "/-- communication skeleton of DatasourceExecuting.Run (consumer) with its reader goroutine -/\ndef runSkeleton : List String :=\n  %s\n", q(runSkel))
 	fmt.Fprintf(&sb, "/-- communication skeleton of one pool worker -/\ndef workerSkeleton : List String :=\n  %s\n", q(wkSkel))
+	fmt.Fprintf(&sb, "/-- communication skeleton of StreamJoin.Run -/\ndef streamJoinSkeleton : List String :=\n  %s\n", q(joinSkel["stream_join.go"]))
+	fmt.Fprintf(&sb, "/-- communication skeleton of OuterJoin.Run -/\ndef outerJoinSkeleton : List String :=\n  %s\n", q(joinSkel["outer_join.go"]))
 	sb.WriteString("end Octo.Gen.JsonPipe\n")
 	return os.WriteFile(filepath.Join(outDir, "JsonPipe.lean"), []byte(sb.String()), 0o644)
 }
